@@ -28,7 +28,8 @@ unsafe impl Sync for VariableInfo {}
 
 impl ToString for VariableInfo {
     fn to_string(&self) -> String {
-        self.tokens.iter().map(|item| item.to_string().to_lowercase()).collect::<String>()
+        /* Words are joined with a space, otherwise "a b" and "ab" would be the same variable */
+        self.tokens.iter().map(|item| item.to_string().to_lowercase()).collect::<Vec<_>>().join(" ")
     }
 }
 
